@@ -482,3 +482,118 @@ Print Assumptions C09_wiring_StripeMeasures_pruning_base.
 
 End Wiring_C09.
 (* ---- WIRING-APPENDIX:END ---- *)
+
+(*BEGIN GenAgreeDimension_C09*)
+(* ------------------------------------------------------------------------------------ *)
+(* SOURCE TEXT of the dimension side of visibility (harness/translate/x_dimension.py -> Gen/DimensionSrc.v, see the
+   appendix of Props/C04.v): _ElementTransforms.hide, Element.is_hidden, Element.missing, Dimension.prune read the
+   transforms the way Model/Collator.v does - "hide" is one of True / False / anything else ([hideval_of]), an element
+   is hidden exactly when it is True, the dimension prunes exactly when "prune" is True; Elements.from_typedef builds
+   one Element per definition with the transforms `all_xforms.get(id, all_xforms.get(str(id), {}))` ([xform_of]; no
+   "order" key, dimension type other than MR_SUBVAR / DATETIME), Elements.valid_elements drops the missing ones, and
+   Dimension.hidden_idxs IS [hidden_idxs d] for every dimension d whose [d_hides] reads the "elements" transforms
+   ([ax_abs]) and whose ids are the valid element ids. *)
+From CC Require Proofs.GenAgreeDimensionVisibility Base.Ident.
+Section GenAgreeDimension_C09.   (* scopes and imports below end with the section *)
+Import Coq.Lists.List Coq.ZArith.ZArith Coq.Strings.String Coq.Bool.Bool CC.Base.XQ CC.Base.PyList CC.Base.PyDict
+       CC.Model.DimType CC.Model.Subtotals CC.Model.SubtotalIds CC.Model.PyDimension CC.Gen.DimensionSrc
+       CC.Proofs.GenAgreeDimensionLib CC.Proofs.GenAgreeDimensionSubtotal CC.Spec.OrderSpec CC.Model.Collator
+       CC.Proofs.GenAgreeDimensionAnchors CC.Proofs.GenAgreeDimensionVisibility.
+Import Coq.Lists.List.ListNotations.
+Local Close Scope Q_scope.
+Local Open Scope Z_scope.
+
+Theorem C09_gen_dim__ElementTransforms_hide :
+  match src__ElementTransforms_hide with
+  | Some f => forall x, f (mkPyXforms (JDict x))
+                        = Ok (jv_of_hideval (hideval_of (jd_get_default x (JStr "hide") JNone)))
+  | None => True end.
+Proof. exact gen__ElementTransforms_hide. Qed.
+Print Assumptions C09_gen_dim__ElementTransforms_hide.
+
+Theorem C09_gen_dim_Element_is_hidden :
+  match src_Element_is_hidden with
+  | Some f => forall ed idx x t,
+      f (mkPyElement ed idx (mkPyXforms (JDict x)) t)
+      = Ok (JBool (hidden_of (hideval_of (jd_get_default x (JStr "hide") JNone))))
+  | None => True end.
+Proof. exact gen_Element_is_hidden. Qed.
+Print Assumptions C09_gen_dim_Element_is_hidden.
+
+Theorem C09_gen_dim_Dimension_prune :
+  match src_Dimension_prune with
+  | Some f => forall t dd tr,
+      f (mkPyDimension t dd (JDict tr)) = Ok (jv_is_true (jd_get_default tr (JStr "prune") JNone))
+  | None => True end.
+Proof. exact gen_Dimension_prune. Qed.
+Print Assumptions C09_gen_dim_Dimension_prune.
+
+Theorem C09_gen_dim_Element_missing :
+  match src_Element_missing with
+  | Some f => forall e idx xf t,
+      f (mkPyElement (JDict e) idx xf t) = Ok (jv_truthy (jd_get_default e (JStr "missing") JNone))
+  | None => True end.
+Proof. exact gen_Element_missing. Qed.
+Print Assumptions C09_gen_dim_Element_missing.
+
+Theorem C09_gen_dim_fn__formatter :
+  match src_fn__formatter with
+  | Some f => forall t ty fmt, dtype_eqb t TDatetime = false -> f t ty fmt = Ok tt
+  | None => True end.
+Proof. exact gen_fn__formatter. Qed.
+Print Assumptions C09_gen_dim_fn__formatter.
+
+Theorem C09_gen_dim_Elements_from_typedef :
+  match src_Elements_from_typedef with
+  | Some f => forall ty tr t fmt defs ids ax,
+      dtype_eqb t TMrSubvar = false -> dtype_eqb t TDatetime = false ->
+      typedef_defs ty = Some defs -> jd_get_default ty (JStr "order") JNone = JNone ->
+      jd_get_default tr (JStr "elements") (JDict []) = JDict ax ->
+      Forall2 (wf_def t) defs ids ->
+      f (JDict ty) (JDict tr) t fmt = Ok (elements_from t ax 0 defs ids)
+  | None => True end.
+Proof. exact gen_Elements_from_typedef. Qed.
+Print Assumptions C09_gen_dim_Elements_from_typedef.
+
+Theorem C09_gen_dim_Elements_valid_elements :
+  match src_Elements_valid_elements with
+  | Some f => forall els, Forall el_is_dict els -> f els = Ok (filter (fun el => negb (el_missing el)) els)
+  | None => True end.
+Proof. exact gen_Elements_valid_elements. Qed.
+Print Assumptions C09_gen_dim_Elements_valid_elements.
+
+Theorem C09_gen_dim_Dimension_all_elements :
+  match src_Dimension_all_elements with
+  | Some f => forall t dd tr ty defs ids ax, dim_reads t dd tr ty defs ids ax ->
+      f (mkPyDimension t (JDict dd) (JDict tr)) = Ok (elements_from t ax 0 defs ids)
+  | None => True end.
+Proof. exact gen_Dimension_all_elements. Qed.
+Print Assumptions C09_gen_dim_Dimension_all_elements.
+
+Theorem C09_gen_dim_Dimension_valid_elements :
+  match src_Dimension_valid_elements with
+  | Some f => forall t dd tr ty defs ids ax, dim_reads t dd tr ty defs ids ax ->
+      f (mkPyDimension t (JDict dd) (JDict tr)) = Ok (valid_elems t ax defs ids)
+  | None => True end.
+Proof. exact gen_Dimension_valid_elements. Qed.
+Print Assumptions C09_gen_dim_Dimension_valid_elements.
+
+Theorem C09_gen_dim_Dimension_element_ids :
+  match src_Dimension_element_ids with
+  | Some f => forall t dd tr ty defs ids ax, dim_reads t dd tr ty defs ids ax ->
+      f (mkPyDimension t (JDict dd) (JDict tr)) = Ok (map jv_of_ident (valid_ids defs ids))
+  | None => True end.
+Proof. exact gen_Dimension_element_ids. Qed.
+Print Assumptions C09_gen_dim_Dimension_element_ids.
+
+Theorem C09_gen_dim_Dimension_hidden_idxs :
+  match src_Dimension_hidden_idxs with
+  | Some f => forall t dd tr ty defs ids ax d, dim_reads t dd tr ty defs ids ax ->
+      ax_abs ax (d_hides d) -> d_ids d = map oid (valid_ids defs ids) ->
+      f (mkPyDimension t (JDict dd) (JDict tr)) = Ok (map Z.of_nat (hidden_idxs d))
+  | None => True end.
+Proof. exact gen_Dimension_hidden_idxs. Qed.
+Print Assumptions C09_gen_dim_Dimension_hidden_idxs.
+
+End GenAgreeDimension_C09.
+(*END GenAgreeDimension_C09*)
